@@ -35,7 +35,10 @@ def ingest(name, prop, wt):
     demo = open(os.path.join(wt, "SEED", "demo.py")).read()
     demo = demo.replace(f'"{wt}"', 'os.environ.get("SEED_TREE", "/repo")').replace(
         f"'{wt}'", 'os.environ.get("SEED_TREE", "/repo")')
+    demo = demo.replace(f'"{wt}/"', '(os.environ.get("SEED_TREE", "/repo") + "/")')
     demo = demo.replace(wt, "/repo")
+    # (the path may sit inside the source text of a subprocess that does not import os)
+    demo = demo.replace('os.environ.get("SEED_TREE", "/repo")', '__import__("os").environ.get("SEED_TREE", "/repo")')
     demo = "import os\n" + demo
     open(os.path.join(dst, "demo.py"), "w").write(demo)
     chk = f"/tmp/seedchk-{name}"
